@@ -91,6 +91,7 @@ theorem validate_eq (b : Cand) : validate b = firstFailure (validateChecks b) :=
   by_cases h1 : b.prevID.length = 32 <;> simp [h1]
   by_cases h2 : b.gen.length = 20 <;> simp [h2]
   by_cases h3 : b.sigLen = 64 <;> simp [h3]
+  by_cases h3' : b.stateRootLen = 32 <;> simp [h3']
   cases validateTxs b.txStatic with
   | some e => rfl
   | none =>
